@@ -59,23 +59,25 @@ var benignSnippets = map[string]string{
 
 // fault class and syntactic position -> statement(s) that fail at run time (all of them compile)
 var faultSnippets = map[string]string{
-	"arith-asg":     `t = 1 + "s"`,
-	"arith-if":      `if 1 + "s" > 0 { t = 1 }`,
-	"arith-elseif":  `if false { t = 0 } else if 2 * "s" > 0 { t = 1 }`,
-	"arith-forinit": `for k = 1 - "s"; k < 1; k += 1 { t = 1 }`,
-	"arith-forcond": `for k = 0; k < 1 + "s"; k += 1 { t = 1 }`,
-	"arith-forstep": `for k = 0; k < 2; k += "s" { t = 1 }`,
-	"arith-return":  `return 1 + "s"`,
-	"arith-arg":     `ev(1 + "s")`,
-	"arith-conc":    "conc {\n t = 1 + \"s\"\n u = 2\n }",
-	"div-zero":      `t = 7 / 0`,
-	"div-zero-if":   `if 7 / zero > 1 { t = 1 }`,
-	"cmp-asg":       `t = 1 < "s"`,
-	"cmp-if":        `if "s" > 1 { t = 1 }`,
-	"cmp-return":    `return true == 1`,
-	"logic-asg":     `t = 1 && true`,
-	"logic-if":      `if true || "s" { t = 1 }`,
-	"cond-notbool":  `if 1 { t = 1 }`,
+	"arith-asg":            `t = 1 + "s"`,
+	"arith-if":             `if 1 + "s" > 0 { t = 1 }`,
+	"arith-elseif":         `if false { t = 0 } else if 2 * "s" > 0 { t = 1 }`,
+	"arith-forinit":        `for k = 1 - "s"; k < 1; k += 1 { t = 1 }`,
+	"arith-forcond":        `for k = 0; k < 1 + "s"; k += 1 { t = 1 }`,
+	"arith-forstep":        `for k = 0; k < 2; k += "s" { t = 1 }`,
+	"arith-return":         `return 1 + "s"`,
+	"arith-arg":            `ev(1 + "s")`,
+	"arith-conc":           "conc {\n t = 1 + \"s\"\n u = 2\n }",
+	"div-zero":             `t = 7 / 0`,
+	"div-zero-if":          `if 7 / zero > 1 { t = 1 }`,
+	"cmp-asg":              `t = 1 < "s"`,
+	"cmp-if":               `if "s" > 1 { t = 1 }`,
+	"cmp-return":           `return true == 1`,
+	"logic-asg":            `t = 1 && true`,
+	"logic-if":             `if true || "s" { t = 1 }`,
+	"cond-notbool":         `if 1 { t = 1 }`,
+	"cond-notbool-elseif":  `if false { t = 0 } else if 1 { t = 1 }`,
+	"cond-notbool-elseif2": `if false { t = 0 } else if zero > 1 { t = 2 } else if "s" { t = 1 } else { t = 3 }`,
 	// a pair: one rule binds a local and then dies of a rule-level fault; another rule reads that name, which it never
 	// bound: a missing name, whatever the first rule left behind
 	"bind-then-panic":       "lk9 = 5\n    if 1 { t = 1 }",
@@ -219,6 +221,10 @@ func ruleText(rs []Rule) string {
 		fmt.Fprintf(&sb, "  if doTag(\"%s\") { stag.StopTag = true }\n", n)
 		if strings.HasPrefix(r.Tpl, "F:") {
 			// C09: a fault of the given class and position inside this rule, fired when the call says so
+			if _, known := faultSnippets[r.Tpl[2:]]; !known {
+				fmt.Fprintf(os.Stderr, "driver: unknown fault code %q\n", r.Tpl[2:])
+				os.Exit(2)
+			}
 			fmt.Fprintf(&sb, "  if doFault(\"%s\") {\n    prefail(\"%s\")\n    %s\n  }\n", n, n, faultSnippets[r.Tpl[2:]])
 		}
 		if snip, ok := faultSnippets[r.FK]; ok {
